@@ -76,7 +76,7 @@ Definition parse_fb_tokens (toks : list token) : outcome :=
             if kind_eqb (t_kind nm) KIdentifier then
               let r2 := st_skip r1 in
               if in_scope token tok_class r2 then
-                match body token tok_class t_text tok_num op_level (2 * List.length toks + 8) r2 with
+                match body token tok_class t_text tok_num op_level (3 * List.length toks + 8) r2 with
                 | Ok (l, r3) =>
                     match st_skip r3 with
                     | e :: r4 => if kind_eqb (t_kind e) KEndFunctionBlock
